@@ -699,7 +699,7 @@ impl Scenario for TsigScn {
         stats.iter().any(|(k, v)| *v > 0 && k.starts_with("fault."))
     }
     fn run(&self, tier: Tier) -> Pin<Box<dyn Future<Output = ()>>> {
-        Box::pin(async move { run(tier) })
+        Box::pin(run(tier))
     }
 }
 
@@ -739,7 +739,7 @@ fn viol(oracle: &str, sig: String, detail: String) -> bool {
     sim::violation(P, oracle, sig, detail)
 }
 
-fn run(_tier: Tier) {
+async fn run(_tier: Tier) {
     let alg = sim::draw("key.alg", 4) as usize;
     let native = ALG_LEN[alg];
     let lo = (native / 2).max(10);
@@ -796,10 +796,129 @@ fn run(_tier: Tier) {
         skew_s: skew("skew.server"),
     };
     ev!("key alg={} min_mac={:?} sign_len={:?} name={} fudge={} skew_c={} skew_s={}", ALG_NAMES[alg], min_mac, sign_len, key_name, fudge, w.skew_c, w.skew_s);
-    match sim::draw("mode", 3) {
-        0 => transaction(&w),
-        1 => lib_sequence(&w),
-        _ => model_sequence(&w),
+    match sim::draw("mode", 7) {
+        0 | 1 => transaction(&w),
+        2 | 3 => lib_sequence(&w),
+        4 | 5 => model_sequence(&w),
+        _ => middleware_sequence(&w).await,
+    }
+}
+
+// ------------------------------------------------- the server middleware
+
+/// Bottom service of the middleware mode: `n` responses, the transaction
+/// feedback either on items of its own or attached to the first / last
+/// response (both are legal for a `Service`).
+#[derive(Clone)]
+struct MultiSvc {
+    n: usize,
+    begin_attached: bool,
+    end_attached: bool,
+    with_feedback: bool,
+}
+
+type MwStream = futures_util::stream::Iter<std::vec::IntoIter<domain::net::server::service::ServiceResult<Vec<u8>>>>;
+
+impl<M: Clone + Default + Send + Sync + 'static> domain::net::server::service::Service<Vec<u8>, M> for MultiSvc {
+    type Target = Vec<u8>;
+    type Stream = MwStream;
+    type Future = std::future::Ready<MwStream>;
+
+    fn call(&self, request: domain::net::server::message::Request<Vec<u8>, M>) -> Self::Future {
+        use domain::net::server::service::{CallResult, ServiceFeedback};
+        let msg = request.message();
+        let mut items = Vec::new();
+        let multi = self.n > 1 && self.with_feedback;
+        if multi && !self.begin_attached {
+            items.push(Ok(CallResult::feedback_only(ServiceFeedback::BeginTransaction)));
+        }
+        for i in 0..self.n {
+            let builder = domain::net::server::util::mk_builder_for_target::<Vec<u8>>();
+            let mut ab = builder.start_answer(msg, domain::base::iana::Rcode::NOERROR).expect("start_answer");
+            if let Ok(q) = msg.sole_question() {
+                let text = format!("part{}", i).into_bytes();
+                ab.push((q.qname(), Class::IN, Ttl::from_secs(60), Txt::<Vec<u8>>::build_from_slice(&text).unwrap())).unwrap();
+            }
+            let mut cr = CallResult::new(ab.additional());
+            if multi && self.begin_attached && i == 0 {
+                cr = cr.with_feedback(ServiceFeedback::BeginTransaction);
+            }
+            if multi && self.end_attached && i + 1 == self.n {
+                cr = cr.with_feedback(ServiceFeedback::EndTransaction);
+            }
+            items.push(Ok(cr));
+        }
+        if multi && !self.end_attached {
+            items.push(Ok(CallResult::feedback_only(ServiceFeedback::EndTransaction)));
+        }
+        std::future::ready(futures_util::stream::iter(items))
+    }
+}
+
+/// An honest signed request goes through the real `TsigMiddlewareSvc`; the
+/// responses it lets out - one, or a sequence - must verify on the client
+/// side (every one of them signed), whichever way the service below reports
+/// the boundaries of its transaction.
+async fn middleware_sequence(w: &World) {
+    use domain::net::server::message::{NonUdpTransportContext, Request, TransportSpecificContext};
+    use domain::net::server::middleware::tsig::TsigMiddlewareSvc;
+    use domain::net::server::service::Service;
+    use futures_util::StreamExt;
+    sim::stat("counter.middleware_sequences");
+    let key = std::sync::Arc::new(w.lib_key.clone());
+    let n = 1 + sim::draw("mw.n", 6) as usize;
+    let svc = MultiSvc {
+        n,
+        begin_attached: sim::chance("mw.begin_attached", 1, 2),
+        end_attached: sim::chance("mw.end_attached", 1, 2),
+        with_feedback: n > 1,
+    };
+    let mw = TsigMiddlewareSvc::<Vec<u8>, MultiSvc, std::sync::Arc<Key>, ()>::new(svc.clone(), key.clone());
+    let id = sim::draw("msg.id", 65536) as u16;
+    let mut req = build_msg(id, "zone.example.", 0, 0, false);
+    // Both ends read the (virtual) wall clock here.
+    let now = sim::wall_secs();
+    let mut cseq = match ClientSequence::request_with_fudge(&w.lib_key, &mut req, t48(now), w.fudge.max(5)) {
+        Ok(s) => s,
+        Err(_) => return,
+    };
+    let signed_req = req.as_slice().to_vec();
+    let msg = Message::from_octets(signed_req).unwrap();
+    let request = Request::new("10.0.0.7:5353".parse().unwrap(), tokio::time::Instant::now(), msg, TransportSpecificContext::NonUdp(NonUdpTransportContext::new(None)), ());
+    ev!("middleware: {} responses, begin attached {}, end attached {}", n, svc.begin_attached, svc.end_attached);
+    let mut stream = Box::pin(mw.call(request).await);
+    let mut got = 0usize;
+    while let Some(item) = stream.next().await {
+        let cr = match item {
+            Ok(cr) => cr,
+            Err(e) => {
+                viol("completeness", "middleware-service-error".into(), format!("an honest signed request ended in service error {:?}", e));
+                return;
+            }
+        };
+        let (resp, _feedback) = cr.into_inner();
+        let resp = match resp {
+            Some(r) => r,
+            None => continue,
+        };
+        let bytes = resp.as_slice().to_vec();
+        got += 1;
+        if !matches!(scan(&bytes), Scan::One(_)) {
+            viol("completeness", "middleware-response-unsigned".into(), format!("response {} of {} to a signed request left the TSIG middleware without a (single, trailing) TSIG record", got, n));
+            return;
+        }
+        let mut dm = Message::from_octets(bytes).unwrap();
+        if let Err(e) = cseq.answer(&mut dm, t48(sim::wall_secs())) {
+            viol("completeness", format!("middleware-response-rejected-{}", why_of_validation(&e)), format!("response {} of {} from the TSIG middleware does not verify on the client: {:?}", got, n, e));
+            return;
+        }
+    }
+    if got != n {
+        viol("completeness", "middleware-lost-responses".into(), format!("the service produced {} responses, the middleware let {} out", n, got));
+        return;
+    }
+    if let Err(e) = cseq.done() {
+        viol("completeness", format!("middleware-seq-done-{}", why_of_validation(&e)), "done() failed after the middleware's responses".into());
     }
 }
 
@@ -1073,22 +1192,61 @@ fn lib_sequence(w: &World) {
     let mut prior = req_mac.clone();
     let mut prior_rcvd = req_mac.clone();
     let mut model_ok = true;
-    for i in 0..n {
-        let mut ans = build_msg(id, "zone.example.", 1 + sim::draw("seq.recs", 4), sim::draw("seq.size", 3) * 60, true);
-        let t_s = w.now_s(i);
-        if sseq.answer_with_fudge(&mut ans, t48(t_s), w.fudge).is_err() {
-            return;
-        }
-        let signed = ans.as_slice().to_vec();
+    let mut redeliveries = 0u32;
+    let mut mac_check_reached = false;
+    let mut held: Option<(Vec<u8>, Vec<u8>)> = None; // the server's message 0 and its MAC, for redelivery
+    let mut i = 0u64;
+    while i < n {
+        let (signed, mac_of_signed): (Vec<u8>, Option<Vec<u8>>) = match (&held, redeliveries > 0) {
+            (Some((sg, mc)), true) => (sg.clone(), Some(mc.clone())),
+            _ => {
+                let mut ans = build_msg(id, "zone.example.", 1 + sim::draw("seq.recs", 4), sim::draw("seq.size", 3) * 60, true);
+                let t_s = w.now_s(i);
+                if sseq.answer_with_fudge(&mut ans, t48(t_s), w.fudge).is_err() {
+                    return;
+                }
+                (ans.as_slice().to_vec(), None)
+            }
+        };
         // Conformance of message i (first: request MAC + full variables;
         // later: prior MAC + timers only).
         let prefix = if i == 0 { Prefix::RequestMac(&prior) } else { Prefix::Running(&prior, &[]) };
-        let mac = match check_conformance(w, if i == 0 { "seq-first-answer" } else { "seq-subsequent-answer" }, &signed, prefix) {
+        let mac = match mac_of_signed {
             Some(m) => m,
-            None => return,
+            None => match check_conformance(w, if i == 0 { "seq-first-answer" } else { "seq-subsequent-answer" }, &signed, prefix) {
+                Some(m) => m,
+                None => return,
+            },
         };
-        // Channel.
-        let m = if sim::chance("seq.tamper", 1, 5) { gen_mutation(signed.len(), w.fudge) } else { Mutation::None };
+        if i == 0 {
+            held = Some((signed.clone(), mac.clone()));
+        }
+        // Channel. A first answer that was rejected may be followed by
+        // further candidates for the first answer (spoofed messages can be
+        // dropped and the next one tried): nothing of the rejected one may
+        // stick.
+        let m = if redeliveries > 0 {
+            // (`ClientSequence` checks the first answer's MAC with the
+            // context that holds the request MAC and gives that context up
+            // doing so - unlike `ClientTransaction` it does not promise to
+            // stay usable after a failed MAC check. So the genuine answer is
+            // only expected to verify after candidates that were rejected
+            // before their MAC was looked at; candidates without a TSIG
+            // record must be rejected in any case.)
+            if mac_check_reached {
+                Mutation::DropTsig
+            } else {
+                match sim::draw("seq.redeliver", 3) {
+                    0 => Mutation::None,
+                    1 => Mutation::DropTsig,
+                    _ => Mutation::MacFlip,
+                }
+            }
+        } else if sim::chance("seq.tamper", 1, 5) {
+            gen_mutation(signed.len(), w.fudge)
+        } else {
+            Mutation::None
+        };
         sim::stat(mutation_stat(&m));
         let delivered = mutate(&signed, &m);
         let t_c = w.now_c(i);
@@ -1111,10 +1269,28 @@ fn lib_sequence(w: &World) {
                 let got = why_of_validation(e);
                 if got != why_name(why) {
                     viol("error-class", format!("client-seq/expected-{}-got-{}", why_name(why), got), format!("message {} after {:?}: client {:?}, model {:?}", i, m, e, why));
+                    return;
                 }
-                return; // the sequence ends at the first rejection
+                // Later in the sequence a rejection ends it; a rejected
+                // candidate for the first answer may be followed by others.
+                if matches!(why, Why::BadSig | Why::BadTrunc | Why::BadTime) {
+                    mac_check_reached = true;
+                }
+                if i == 0 && redeliveries < 3 && sim::chance("seq.try_next_candidate", 2, 3) {
+                    redeliveries += 1;
+                    sim::stat("probe.first_answer_candidate_after_rejection");
+                    continue;
+                }
+                return;
             }
-            (Err(ValidationError::ServerUnsigned), Verdict::NoTsig) if i == 0 => return,
+            (Err(ValidationError::ServerUnsigned), Verdict::NoTsig) if i == 0 => {
+                if redeliveries < 3 && sim::chance("seq.try_next_candidate", 2, 3) {
+                    redeliveries += 1;
+                    sim::stat("probe.first_answer_candidate_after_rejection");
+                    continue;
+                }
+                return;
+            }
             (Ok(()), Verdict::NoTsig) if i > 0 => {
                 // An unsigned intermediate message is legal; but then the
                 // running digest includes it. (Only arises via DropTsig.)
@@ -1135,6 +1311,8 @@ fn lib_sequence(w: &World) {
             return;
         }
         prior = mac;
+        redeliveries = 0;
+        i += 1;
     }
     if let Err(e) = cseq.done() {
         viol("completeness", format!("seq-done-{}", why_of_validation(&e)), "done() failed after a fully signed sequence".into());
